@@ -276,9 +276,15 @@ def main(argv):
     if args.prop not in reg['properties']:
         print('unknown or not-applicable property', args.prop)
         return 2
-    if args.replay:
-        return native.replay(args.prop, args.replay, args.repo)
-    return check_property(args.prop, reg, args, seed)
+    # one check at a time per /verif tree: the native stages share a scratch copy of the repository and cargo target
+    # directories under .cache (two concurrent checks would overwrite each other's injected drivers)
+    import fcntl
+    os.makedirs(CACHE, exist_ok=True)
+    with open(os.path.join(CACHE, 'check.lock'), 'w') as lk:
+        fcntl.flock(lk, fcntl.LOCK_EX)
+        if args.replay:
+            return native.replay(args.prop, args.replay, args.repo)
+        return check_property(args.prop, reg, args, seed)
 
 
 def check_property(prop, reg, args, seed):
